@@ -428,8 +428,6 @@ Ltac upd_case :=
       rewrite (proj2 (N.compare_eq_iff _ _) H)
   end.
 
-(* where an update comes from: a removal names a member of old, anything else is an entry of
-   new with its total power *)
 Lemma in_vals a p l : In (a, p) (vals l) <-> exists d, In d l /\ d_addr d = a /\ d_total d = p.
 Proof.
   unfold vals. rewrite in_map_iff. split.
@@ -444,6 +442,8 @@ Proof.
   - intros [E H]. apply in_map_iff in H. destruct H as [d [E1 H]]. exists d. subst. auto.
 Qed.
 
+(* where an update comes from: a removal names a member of old, anything else is an entry of
+   new with its total power *)
 Lemma updates_source old new a p :
   In (a, p) (updates old new) ->
   (p = 0 /\ In a (map d_addr old)) \/ (exists d, In d new /\ d_addr d = a /\ d_total d = p).
@@ -1345,7 +1345,8 @@ Proof. vm_compute. reflexivity. Qed.
 
 Example blocks_ok : Forall blk_ok blocks.
 Proof.
-  repeat constructor; try (unfold maxV; lia); try (apply nodupb_sound; reflexivity);
+  constructor; [|constructor; [|constructor; [|constructor]]];
+    (split; [unfold maxV; lia | split; [apply nodupb_sound; reflexivity |]]);
     intros d H Hm; in_cases H; cbn in *; lia.
 Qed.
 Example ex_run_blocks_ok :
